@@ -58,6 +58,8 @@ struct Task {
 	int64_t skipfail = -1;           // S-SKIPFAIL: n-th skip call fails
 	int seekerr = 0;                 // HALFSEEK errno: 0 ESPIPE, 1 EIO
 	int skippast = 0;                // CB_SKIP accepts skipping past the end
+	int erronce = 0;                 // S-ERR is transient: one read call fails (errno errerrno), the following ones succeed
+	int errerrno = 5;                // errno of S-ERR on FILE kinds (EIO by default)
 	int endless = 0;                 // S-ENDLESS: the source never reports end of input, its bytes repeat for ever
 	std::string dir;                 // SimFS working directory of this task
 	std::vector<Op> ops;
